@@ -38,6 +38,7 @@ type Obligation struct {
 }
 
 type Script struct {
+	caseTerms []string // entry-state conditions of the contract's case split (named Boolean constants)
 	decls    []string
 	sigs     map[string]string
 	declared map[string]bool
@@ -63,9 +64,81 @@ func (s *Script) declare(name, sig string) {
 	s.decls = append(s.decls, "(declare-fun "+name+" "+sig+")")
 }
 
+// splitTop splits an s-expression list "(op a b c)" into its top-level elements; ok=false if s is not a list.
+func splitTop(s string) (parts []string, ok bool) {
+	if len(s) < 2 || s[0] != '(' || s[len(s)-1] != ')' {
+		return nil, false
+	}
+	body := s[1 : len(s)-1]
+	d, start, inq := 0, -1, false
+	for i := 0; i < len(body); i++ {
+		c := body[i]
+		if inq {
+			if c == '|' {
+				inq = false
+			}
+			continue
+		}
+		switch c {
+		case '|':
+			inq = true
+			if d == 0 && start < 0 {
+				start = i
+			}
+		case '(':
+			if d == 0 && start < 0 {
+				start = i
+			}
+			d++
+		case ')':
+			d--
+			if d < 0 {
+				return nil, false
+			}
+			if d == 0 && start >= 0 {
+				parts = append(parts, body[start:i+1])
+				start = -1
+			}
+		case ' ', '\n', '\t':
+			if d == 0 && start >= 0 {
+				parts = append(parts, body[start:i])
+				start = -1
+			}
+		default:
+			if d == 0 && start < 0 {
+				start = i
+			}
+		}
+	}
+	if start >= 0 {
+		parts = append(parts, body[start:])
+	}
+	return parts, d == 0 && !inq
+}
+
+// fact records an assumption. Conjunctions (also under a guard) are stored conjunct by conjunct: smaller clauses for
+// the solvers, and the quantifier-free conjuncts survive the quantifier-free first pass of the portfolio.
 func (s *Script) fact(f string) {
 	if f == "true" || f == "" {
 		return
+	}
+	if strings.HasPrefix(f, "(and ") {
+		if parts, ok := splitTop(f); ok && len(parts) > 2 && parts[0] == "and" {
+			for _, p := range parts[1:] {
+				s.fact(p)
+			}
+			return
+		}
+	}
+	if strings.HasPrefix(f, "(=> ") {
+		if parts, ok := splitTop(f); ok && len(parts) == 3 && strings.HasPrefix(parts[2], "(and ") {
+			if cs, ok2 := splitTop(parts[2]); ok2 && len(cs) > 2 && cs[0] == "and" {
+				for _, c := range cs[1:] {
+					s.fact("(=> " + parts[1] + " " + c + ")")
+				}
+				return
+			}
+		}
 	}
 	// safety net: a fact must not mention a quantifier-bound variable or spec placeholder outside its binder
 	if strings.Contains(f, "?") {
@@ -533,6 +606,8 @@ func (tr *Tr) storeLeaf(st *State, l Loc, lf leaf, term string) {
 		tr.stores[sym] = storeRec{base: h, ref: l.Ref, val: term}
 		if tr.freshRefs[l.Ref] {
 			tr.allocParent[sym] = h
+		} else {
+			tr.propagateOpaqueOverStore(h, sym, l.Ref)
 		}
 		tr.setHeapVar(st, name, arr1(lf.sort), sym)
 	case LElem:
@@ -542,6 +617,8 @@ func (tr *Tr) storeLeaf(st *State, l Loc, lf leaf, term string) {
 		tr.stores[sym] = storeRec{base: h, ref: l.Ref, idx: l.Idx, val: term}
 		if tr.freshRefs[l.Ref] {
 			tr.allocParent[sym] = h
+		} else {
+			tr.propagateOpaqueOverStore(h, sym, l.Ref)
 		}
 		tr.setHeapVar(st, name, arr2(lf.sort), sym)
 	default:
@@ -675,7 +752,7 @@ func (tr *Tr) markHeapKinds(l Loc, t types.Type) {
 
 // heapVersionAxiom states well-typedness of every cell of a heap version that is not defined by a store:
 // references are allocated (below the allocation counter at the version's creation), integers are in range.
-func (tr *Tr) heapVersionAxiom(name, sym, sort, top string) {
+func (tr *Tr) heapVersionAxiom(name, sym, sort, top string, local ...bool) {
 	kind, ok := tr.heapKind[name]
 	if !ok {
 		tr.g.heapRegistry() // fills the type-derived kinds
@@ -707,5 +784,11 @@ func (tr *Tr) heapVersionAxiom(name, sym, sort, top string) {
 		parts := strings.SplitN(kind, ":", 3)
 		body = fmt.Sprintf("(and (<= %s %s) (<= %s %s))", parts[1], sel, sel, parts[2])
 	}
-	tr.sc.fact(fmt.Sprintf("(forall %s (! %s :pattern (%s)))", vars, body, pat))
+	f := fmt.Sprintf("(forall %s (! %s :pattern (%s)))", vars, body, pat)
+	if len(local) > 0 && local[0] {
+		// the version was created by a havoc in the current block: only code reached from here can mention it
+		tr.sc.factLocal(f)
+		return
+	}
+	tr.sc.fact(f)
 }
